@@ -14,6 +14,9 @@ const-evaluated DATETIME_PARSE_DATAS):
   R4.3 zone-name agreement: every name a %Z row can capture is a key of MAP_TZZ_TO_TZz; values are
        empty (ambiguous) or +HH:MM.
   R4.4 cgn_first/cgn_last are named groups of the row's regex.
+  R4.5 rows are tried in table order, first match wins: no row may be completely shadowed by an
+       earlier row that reads the timestamp differently (search-language inclusion, DFA product;
+       quick tier: the 8 preceding rows, thorough tier: all earlier rows).
 Does not decide: chrono's mapping of the normalised buffer to an instant, which row wins for a given
 line (pattern shadowing is reported as information in the thorough tier), --tz-offset arithmetic.
 """
@@ -467,6 +470,31 @@ def run(prog, rep, tier):
         for nm in ("cgn_first", "cgn_last"):
             if f_[nm] not in g:
                 rep.violation(R44, "row|%s|%s" % (rows[i]["fields"]["regex_pattern"][:60], nm), "DATETIME_PARSE_DATAS[%d] (source line %s): %s = %r is not a named group of the row's regex" % (i, line, nm, f_[nm]))
+    # ---------- R4.5 dead rows: rows are tried in table order and the first match wins
+    R45 = rep.rule("R4.5", "no row is completely shadowed by an earlier row with a different interpretation")
+    window = 1000 if tier == "thorough" else 8
+    sh = rx.shadow([r_["fields"]["regex_pattern"] for r_ in rows], window=window)
+    for e in sh["shadow"]:
+        j = e["j"]
+        if e.get("error"):
+            raise CheckerError("rxtab could not build the search automaton of row %d" % j)
+        i = e.get("dead_by")
+        rep.examined(R45, "row%d" % j, nontrivial=(i is not None), sample=({"row": j, "shadowed_by": i} if i is not None else None))
+        if i is None:
+            continue
+        dj, di = dtfs_of(rows[j]), dtfs_of(rows[i])
+        pj = rows[j]["fields"]["dtfs"]["fields"]["pattern"]
+        pi = rows[i]["fields"]["dtfs"]["fields"]["pattern"]
+        ri, rj = rows[i]["fields"]["range_regex"]["fields"], rows[j]["fields"]["range_regex"]["fields"]
+        covers = ri["start"] <= rj["start"] and ri["end"] >= rj["end"]
+        if (dj != di or pj != pi) and covers:
+            rep.violation(R45, "row|%s|dead" % rows[j]["fields"]["regex_pattern"][:60],
+                          "DATETIME_PARSE_DATAS[%d] (source line %s, format %s) can never be chosen: every line it matches is matched first by row %d (source line %s, format %s), which reads the timestamp differently" % (
+                              j, rows[j]["fields"].get("_line_num"), pj, i, rows[i]["fields"].get("_line_num"), pi))
+        else:
+            rep.info("row %d (line %s) is redundant: always preceded by row %d with the same interpretation" % (j, rows[j]["fields"].get("_line_num"), i))
+    rep.extra["shadow_product_states"] = sh.get("product_states")
+    rep.extra["shadow_window"] = window
     rep.floor(R41, 150)
     rep.floor(R42, 150)
     rep.exhaustive.append("R4.1-R4.4: every row of DATETIME_PARSE_DATAS; inclusion decided over all strings of each row's regular language (DFA product)")
